@@ -169,9 +169,12 @@ def run_check(prop, tier, seed, keep=False):
             lst = byid[tid]
             p = os.path.join(rdir, tid + '.json')
             with open(p, 'w') as f:
+                m = metas[tid]
                 json.dump({'property': prop, 'tier': tier, 'seed': seed, 'trace_id': tid,
                            'failing': [{'step': s, 'clause': c} for s, c in lst],
-                           'meta': metas[tid], 'trace': tr_by_id[tid]}, f, indent=1)
+                           'meta': {k: v for k, v in m.items() if k != 'case'},
+                           'case': {k: v for k, v in m['case'].items() if k != '_cid'},
+                           'cid': m['case'].get('_cid', ''), 'trace': tr_by_id[tid]}, f, indent=1)
             replay_paths.append((p, lst))
     for ent, cnt in known.values():
         print('KNOWN-FINDING: property=%s %s [clause %s; %d occurrences]' % (prop, ent['note'], ent['clause'], cnt))
@@ -193,7 +196,7 @@ def run_check(prop, tier, seed, keep=False):
             'transitions': vstats['transitions'] + sum(s['generated'] for s in gen_stats),
             'traces_validated_against_impl': len(traces),
             'events_validated': nev,
-            'samples': [{'trace_id': sample['id'], 'meta': metas[sample['id']],
+            'samples': [{'trace_id': sample['id'], 'meta': {k: v for k, v in metas[sample['id']].items() if k != 'case'},
                          'events': [{'a': e['a'], 'args': e.get('args', {})} for e in sample['ev']][:12]}],
             'exhaustive': all(not s.get('simulate') for s in gen_stats) and not cov.get('sampled', False),
             'generators': gen_stats,
